@@ -37,7 +37,8 @@ def run_shard(desc):
         t = g.program(d=rnd.randint(1, 3))
         text = rend.render(t)
         _, ev0 = ref.evaluate(t, base_ctx, **model)
-        for k in range(1, min(ev0.count, 12) + 1):
+        # k runs one past the last invocation the program makes: a fault armed there must never fire
+        for k in range(1, min(ev0.count, 12) + 2):
             for fk in ("err", "panic"):
                 cid += 1
                 threaded = (cid % 7 == 0)
